@@ -5,6 +5,11 @@ from .. import harness, runner
 
 
 def drv(flavour="asan", variant="generated", name="theo_drv"):
+    import os
+    if os.environ.get("VERIF_COVERAGE") and flavour == "asan":
+        # development aid (tools/coverage.py): run the same workload on the gcov-instrumented build
+        from .. import build
+        return build.build("cov", variant, drivers=(name,))[name]
     return harness.BIN[(flavour, variant, name)]
 
 
